@@ -29,9 +29,10 @@ static std::vector<Conv> convs() {
 
 struct Cfg {
   int conv_index; uint32_t gp_dirty_sel, vec_dirty_sel, k_dirty_sel; uint32_t local_size, local_align, call_size, call_align; bool fp, calls; int avx; int sp_sel; int nargs;
+  int sa_sel = 0;  // stack-argument base register: 0 chosen by the frame, 1 set_sa_reg_id(a callee-saved register), 2 set_sa_reg_id(a volatile register)
   int order = 0;   // 0: local stack attributes are set before the call stack attributes; 1: the register allocator's order (update_call_stack_* first, set_local_stack_* last)
   std::string str() const {
-    char b[256]; snprintf(b, sizeof b, "conv=%d gp=%u vec=%u k=%u lsize=%u lalign=%u csize=%u calign=%u fp=%d calls=%d avx=%d sp=%d nargs=%d order=%d", conv_index, gp_dirty_sel, vec_dirty_sel, k_dirty_sel, local_size, local_align, call_size, call_align, fp, calls, avx, sp_sel, nargs, order);
+    char b[256]; snprintf(b, sizeof b, "conv=%d gp=%u vec=%u k=%u lsize=%u lalign=%u csize=%u calign=%u fp=%d calls=%d avx=%d sp=%d nargs=%d order=%d sa=%d", conv_index, gp_dirty_sel, vec_dirty_sel, k_dirty_sel, local_size, local_align, call_size, call_align, fp, calls, avx, sp_sel, nargs, order, sa_sel);
     return b;
   }
 };
@@ -87,6 +88,13 @@ static bool run_cfg(const Cfg& cf) {
   if (cf.calls) frame.set_func_calls();
   if (is_x86 && cf.avx >= 1) frame.set_avx_enabled();
   if (is_x86 && cf.avx == 2) frame.set_avx512_enabled();
+  if (cf.sa_sel) {
+    // an explicitly selected stack-argument base register (first callee-saved / first volatile register of the alphabet)
+    uint32_t pick = Reg::kIdBad;
+    for (uint32_t r : gp_al) { bool pres = (pres_gp >> r) & 1; if ((cf.sa_sel == 1) == pres) { pick = r; break; } }
+    if (pick == Reg::kIdBad) { c.n("sa_choice_not_available")++; return true; }
+    frame.set_sa_reg_id(pick);
+  }
   if (cf.order == 0) {
     frame.set_local_stack_size(cf.local_size); if (cf.local_align) frame.set_local_stack_alignment(cf.local_align);
     frame.set_call_stack_size(cf.call_size); if (cf.call_align) frame.set_call_stack_alignment(cf.call_align);
@@ -199,7 +207,7 @@ static bool run_cfg(const Cfg& cf) {
 
 static void report(const Cfg& cf) {
   Conv cv = convs()[cf.conv_index];
-  vh::ctx().violation(std::string("frame:") + arch_name(cv.arch) + ":" + cv.name + ":" + g_clause + (g_da ? ":dynamic-alignment" : ""), g_why + " :: " + cv.name + " " + cf.str(), "harness=c07_frames\n" + cf.str() + "\n");
+  vh::ctx().violation(std::string("frame:") + arch_name(cv.arch) + ":" + cv.name + ":" + g_clause + (g_da ? ":dynamic-alignment" : cf.sa_sel ? ":explicit-sa" : ""), g_why + " :: " + cv.name + " " + cf.str(), "harness=c07_frames\n" + cf.str() + "\n");
 }
 
 static Cfg draw(xplor::Chooser& ch, int conv_index, int arch) {
@@ -219,6 +227,7 @@ static Cfg draw(xplor::Chooser& ch, int conv_index, int arch) {
   static const int na[] = {2, 0, 7, 10};
   cf.nargs = na[ch.choose(4)];
   cf.order = ch.choose(2);
+  cf.sa_sel = ch.choose(3);
   return cf;
 }
 
@@ -228,7 +237,7 @@ int main(int argc, char** argv) {
   if (c.replaying()) {
     Cfg cf{}; int fp, calls;
     for (auto& line : vh::split(c.replay_text, '\n')) if (line.rfind("conv=", 0) == 0) {
-      sscanf(line.c_str(), "conv=%d gp=%u vec=%u k=%u lsize=%u lalign=%u csize=%u calign=%u fp=%d calls=%d avx=%d sp=%d nargs=%d order=%d", &cf.conv_index, &cf.gp_dirty_sel, &cf.vec_dirty_sel, &cf.k_dirty_sel, &cf.local_size, &cf.local_align, &cf.call_size, &cf.call_align, &fp, &calls, &cf.avx, &cf.sp_sel, &cf.nargs, &cf.order);
+      sscanf(line.c_str(), "conv=%d gp=%u vec=%u k=%u lsize=%u lalign=%u csize=%u calign=%u fp=%d calls=%d avx=%d sp=%d nargs=%d order=%d sa=%d", &cf.conv_index, &cf.gp_dirty_sel, &cf.vec_dirty_sel, &cf.k_dirty_sel, &cf.local_size, &cf.local_align, &cf.call_size, &cf.call_align, &fp, &calls, &cf.avx, &cf.sp_sel, &cf.nargs, &cf.order, &cf.sa_sel);
       cf.fp = fp; cf.calls = calls;
       if (!run_cfg(cf)) report(cf);
     }
